@@ -147,8 +147,11 @@ class Case:
     """consts: {addr: value}; spies: list of (addr, evalwire-fx) formula cells wrapped in SPY(1000+index, …);
     expr: the entry formula"""
 
-    def __init__(self, tag, consts, spies, expr):
+    def __init__(self, tag, consts, spies, expr, keep_blank=False):
         self.tag, self.consts, self.spies, self.expr = tag, consts, spies, expr
+        # keep_blank: a blank input is a cell WITH the value None (as after set_cell_value(addr, None)), so that the
+        # cell order — and with it the SPY ids of the formula cells — is the same for every assignment of a history
+        self.keep_blank = keep_blank
 
     def build(self):
         real, cells = {}, []
@@ -156,6 +159,9 @@ class Case:
         self.later = {}
         for a, v in self.consts.items():
             if v is None:
+                if self.keep_blank:
+                    cells.append(f'{cp(a)}~c~Z')
+                    order.append(a)
                 continue
             if v == '' and isinstance(v, str):
                 self.later[a] = v          # an explicit empty text: model.set_cell_value after compilation
@@ -215,6 +221,30 @@ class Real:
         del self.log[:]
         out = evalwire.canon_result(ev.evaluate, ENTRY)
         return out, list(self.log)
+
+
+    def run_history(self, steps):
+        """ONE model and ONE evaluator; step i>0 sets the inputs of step i with set_cell_value, then evaluates"""
+        from xlcalculator import ModelCompiler, Evaluator
+        model = ModelCompiler().read_and_parse_dict(steps[0].real, default_sheet=S1)
+        ev = Evaluator(model, namespace=self.ns)
+        outs = []
+        for i, c in enumerate(steps):
+            if i:
+                for a, v in c.consts.items():
+                    ev.set_cell_value(a, v)
+            del self.log[:]
+            out = evalwire.canon_result(ev.evaluate, ENTRY)
+            outs.append((out, list(self.log)))
+        return outs
+
+
+class History:
+    """the same workbook evaluated on one evaluator under a sequence of truth assignments"""
+
+    def __init__(self, tag, spies, expr, assignments_):
+        self.tag = tag
+        self.steps = [Case(tag, consts_of(vals), spies, expr, keep_blank=True).build() for vals in assignments_]
 
 
 # ------------------------------------------------------------------------------ generators
@@ -351,7 +381,39 @@ POISONS = {
     'self-in-sum': lambda: ('app', 0, [ref('A1'), lit(1)]),
     'raising-cell': lambda: ref('C1'),       # C1 = SPY(…, NOSUCHFN())
     'cycle-cell': lambda: ref('C2'),         # C2 = SPY(…, A1): closes a cycle through the entry cell
+    'self-range': lambda: ('app', 4, [rng('A1:A3')]),   # SUM over a range that contains the entry cell
 }
+
+
+def history_cases(rng_, thorough):
+    """poisoned shapes over SEQUENCES of truth assignments on one evaluator: poisoned branch selected (the evaluation
+    fails / reports a cycle / yields an error value), then the healthy one, and healthy -> poisoned -> healthy"""
+    hs = []
+    spies = [(f'{S1}!C1', ('fail', [])), (f'{S1}!C2', ('ref', ENTRY))]
+    good = spyw(1, lit(10))
+    seqs1 = [[False, True], [True, False], [True, False, True], [False, True, False], [0, 2.5], [None, 1, 0],
+             [2.5, None, True], [False, 2.5, False, -1]]
+    for pname, mk in list(POISONS.items()) + [('div0', lambda: ('app', 3, [lit(1), lit(0)]))]:
+        shapes = [
+            ('else', ('if3', B[0], good, mk())),
+            ('then', ('if3', B[0], mk(), good)),
+            ('if2', ('if2', B[0], mk())),
+            ('and-after', ('and', [spyw(1, B[0]), mk()])),
+            ('or-after', ('or', [spyw(1, B[0]), mk()])),
+            ('nested', ('if3', ('or', [B[0], lit(False)]), ('if3', lit(False), mk(), good), mk())),
+            ('not', ('if3', ('not', B[0]), mk(), spyw(2, lit(20)))),
+        ]
+        for sname, expr in shapes:
+            for seq in seqs1:
+                hs.append(History(f'hist-{sname}:{pname}', spies, expr, [(v,) for v in seq]))
+        two = ('if3', ('or', [B[0], ('not', B[1])]), good, mk())
+        for seq in ([(False, True), (True, True), (False, True)], [(0, 1), (0, 0)], [(None, 2.5), (None, None), (1, 1)]):
+            hs.append(History(f'hist-two:{pname}', spies, two, seq))
+    # random formulas under three random assignments
+    for c in random_cases(rng_, 3000 if thorough else 250):
+        seq = [tuple(rng_.choice(TRUTH_VALUES) for _ in range(4)) for _ in range(3)]
+        hs.append(History('hist-random', c.spies, c.expr, seq))
+    return hs
 
 
 def poison_cases():
@@ -567,7 +629,10 @@ def run(ctx):
                 'condition value, (d) random nestings of depth <= 4 over random assignments, (e) the function objects '
                 'called directly with logging thunks, (f) 9 spy-free shapes of AND / OR with RANGE arguments (x all assignments '
                 'incl. empty text; an error cell at every position of the range) which are ALSO evaluated through the shared '
-                'evaluator model (Fx.sc flattens its arguments; formula cells C1..C3 make laziness visible in the log). '
+                'evaluator model (Fx.sc flattens its arguments; formula cells C1..C3 make laziness visible in the log), '
+                '(g) HISTORIES on ONE Evaluator: the poisoned shapes (and random formulas) under sequences of 2-4 truth '
+                'assignments set with set_cell_value — poisoned branch selected, then the healthy one; healthy, poisoned, '
+                'healthy — judged per step by Spec on the current inputs. '
                 'Observable (value | failure, spy log) vs Spec.C10.eval and vs the model '
                 '(exactly, including message lengths). non-trivial = distinct (formula, assignment) in which some spy, poison '
                 'or argument is NOT evaluated (lazy selection visible) or the result is an error / failure')
@@ -591,6 +656,9 @@ def run(ctx):
         f[3] = '|'.join(w[:-2] + 'Z' if w.endswith('~c~T:') and evalwire.un_cp(w.split('~')[0]) not in c.later else w
                         for w in f[3].split('|'))
         c.line = '\t'.join(f)
+        c.replay_history = inp.get('history')
+        if c.replay_history is not None:
+            c.consts = inp.get('consts', {})
         cases = [c]
     else:
         for c in cases:
@@ -601,15 +669,11 @@ def run(ctx):
     def alarm(_s, _f):
         raise Watchdog('an evaluation did not return within 60 s (C06 territory): infrastructure stop')
 
-    old = signal.signal(signal.SIGALRM, alarm)
-    try:
-        for c, r in zip(cases, resp):
+    def judge(c, r, out, log, hist=None):
+        if True:
             d = parse_kv(r)
             if 'impl' not in d:
                 raise RuntimeError(f'driver: {r!r} for {c.line[:400]!r}')
-            signal.alarm(60)
-            out, log = real.run(c)
-            signal.alarm(0)
             res.evaluations += 1
             res.count('shape:' + c.tag.split(':')[0])
             cls = 'failure' if out.startswith('X:') else 'error' if out.startswith('E:') else 'value'
@@ -617,6 +681,9 @@ def run(ctx):
             spec, slog = d['spec'], [int(x) for x in d['slog'].split(',') if x]
             mlog = [int(x) for x in d['log'].split(',') if x]
             inp = {'cells': c.real, 'entry': ENTRY, 'line': c.line, 'later': getattr(c, 'later', {})}
+            if hist is not None:
+                inp['history'] = hist       # the inputs set on the SAME evaluator before this evaluation
+                inp['consts'] = dict(c.consts)
             text = render(c.expr) if c.expr else c.text
             nspy = text.count('SPY(') + sum(1 for a in c.real if a != ENTRY and str(c.real[a]).startswith('=SPY'))
             if len(slog) < nspy or cls != 'value' or 'NOSUCHFN' in text:
@@ -638,6 +705,8 @@ def run(ctx):
                     bad = 'wrong value (truth rules / selection)'
                 elif log != slog:
                     bad = 'the spy log differs: an unselected branch / a short-circuited argument was evaluated, or order'
+            if bad and hist is not None:
+                bad += ' — on a REUSED evaluator, after the evaluations under the earlier assignments of the history'
             if bad:
                 res.violations.append({'what': bad, 'input': inp, 'expected': {'value': spec, 'spy_log': slog},
                                        'got': {'value': out, 'spy_log': log, 'formula': c.text}})
@@ -655,6 +724,40 @@ def run(ctx):
             if res.evaluations % 499 == 7:
                 res.sample({'formula': c.text, 'cells': {k: v for k, v in c.real.items() if k != ENTRY}, 'real': out,
                             'spy_log': log, 'spec': spec, 'spec_log': slog, 'model': d['impl']})
+
+    old = signal.signal(signal.SIGALRM, alarm)
+    try:
+        for c, r in zip(cases, resp):
+            signal.alarm(60)
+            if getattr(c, 'replay_history', None) is not None:
+                # replay of a history step: the earlier assignments are evaluated first on the same evaluator
+                steps = []
+                for consts in c.replay_history + [c.consts]:
+                    st = Case('replay', consts, [], None)
+                    st.real = {a: v for a, v in c.real.items() if a not in c.consts}
+                    st.real.update({a: v for a, v in consts.items() if v is not None})
+                    steps.append(st)
+                out, log = real.run_history(steps)[-1]
+            else:
+                out, log = real.run(c)
+            signal.alarm(0)
+            judge(c, r, out, log, hist=getattr(c, 'replay_history', None))
+        if not ctx.replay:
+            # histories: ONE evaluator over a sequence of truth assignments; per step the oracle is Spec on the
+            # CURRENT inputs (theorem reused_eq_fresh: what a new evaluator would compute)
+            hists = history_cases(ctx.rng, thorough)
+            hresp = ctx.driver.batch([c.line for h in hists for c in h.steps])
+            k = 0
+            for h in hists:
+                signal.alarm(60)
+                outs = real.run_history(h.steps)
+                signal.alarm(0)
+                seen = []
+                for c, (out, log) in zip(h.steps, outs):
+                    judge(c, hresp[k], out, log, hist=list(seen))
+                    seen.append({a: v for a, v in c.consts.items()})
+                    k += 1
+                res.count('histories')
     finally:
         signal.alarm(0)
         signal.signal(signal.SIGALRM, old)
